@@ -169,6 +169,14 @@ def stepCore (cx : Ctx) (w : World) (ws : List String) : StepOut :=
       let (rows, es) := assignS w.rows r []
       { w := { w with regs, rows }, i := { status := "ok", ev := ei }, s := { status := "ok", ev := es } }
     | none => badOp w
+  | ["unwind_drop", r] =>
+    -- the vector is moved into a frame that panics: its `Drop` runs during unwinding
+    match parseReg r with
+    | some r =>
+      let (regs, ei) := assignI w.regs r sh.empty
+      let (rows, es) := assignS w.rows r []
+      { w := { w with regs, rows }, i := { status := "panic", ev := ei }, s := { status := "panic", ev := es } }
+    | none => badOp w
   | ["push", r, t] =>
     match parseReg r, t.toNat? with
     | some r, some t =>
@@ -931,9 +939,10 @@ def capUpdate (cx : Ctx) (w w' : World) (ws : List String) (ok : Bool) : List Ca
   let op := if ["runcate", "o_vec"].contains op then "t" ++ op else op
   let reg (i : Nat) : Nat := ((ws.getD i "").drop 1).toString.toNat?.getD 0
   let num (i : Nat) : Nat := (ws.getD i "").toNat?.getD 0
+  if op == "unwind_drop" then set w.caps (reg 1) fresh else
   if !ok then (List.range nreg).foldl (fun cs r => set cs r { (cs.getD r fresh) with len := lenOf w' r }) w.caps else
   match op with
-  | "new" | "drop" => set w.caps (reg 1) fresh
+  | "new" | "drop" | "unwind_drop" => set w.caps (reg 1) fresh
   | "with_capacity" => set w.caps (reg 1) (Cap.St.new cx.kinds (num 2))
   | "push" | "insert" => set w.caps (reg 1) (get (reg 1)).push
   | "extend" | "extend_refs" | "promise" => set w.caps (reg 1) (Cap.St.pushes (lenOf w' (reg 1) - lenOf w (reg 1)) (get (reg 1)))
